@@ -559,6 +559,9 @@ func (x *Exec) Run(prog []Op) {
 		switch op.Kind {
 		case "put":
 			kb, vb := append([]byte{}, op.Key...), append([]byte{}, op.Val...)
+			if len(vb) == 0 && x.Step%2 == 0 {
+				vb = nil // what a remote client's empty value arrives as
+			}
 			err := x.Eng.Put(kb, vb)
 			scribble(kb)
 			scribble(vb)
@@ -631,6 +634,9 @@ func (x *Exec) Run(prog []Op) {
 				switch s.Kind {
 				case "put":
 					kb, vb := append([]byte{}, s.Key...), append([]byte{}, s.Val...)
+					if len(vb) == 0 && x.Step%2 == 0 {
+						vb = nil
+					}
 					if err := tx.Put(kb, vb); err != nil {
 						x.fail("tx_error", fmt.Sprintf("tx.Put: %v", err), s.Key)
 					}
